@@ -1426,7 +1426,11 @@ impl<R: std::io::Read> std::io::Read for SignGenerator<'_, R> {
                     return Ok(0);
                 }
                 State::Error => {
-                    panic!("inconsistent state, panicked before");
+                    // A previous read failed (e.g. the source reported an error that the
+                    // caller retries, like `Interrupted`): the generator can not continue.
+                    return Err(std::io::Error::other(
+                        "sign generator: a previous read failed",
+                    ));
                 }
                 State::Ops {
                     mut ops,
